@@ -602,6 +602,8 @@ def r11_preevaluated_data_shape(repo: Repo, rep):
 def run(repo: Repo, rep):
     from .c14 import r3_periodic  # a periodic condition evaluates each side's data functions on that side's coordinates
     r3_periodic(repo, rep)
+    from .c09 import r3_fast_path  # derivatives of a DeepONet output w.r.t. the trunk coordinates run through the library's own autograd Function
+    r3_fast_path(repo, rep)
     r9_function_set_flag(repo, rep)
     r11_preevaluated_data_shape(repo, rep)
     r10_periodic_sides(repo, rep)
